@@ -35,7 +35,7 @@ FLAGS = ["retain_names", "retain_coefficients", "sort_graded", "sort_reverse"]
 def case_st(draw):
     names = draw(gen.names_st(max_size=4))
     desc = draw(gen.poly_desc(names=names, max_terms=6, max_exp=3, max_ndim=3))
-    if desc["kind"] == "i" and draw(st.integers(0, 4)) == 0:
+    if desc["kind"] == "i" and draw(st.integers(0, 2)) == 0:
         # narrow integer storage with values near its limits: exponent*coefficient no longer fits
         # the storage dtype, the formal derivative must still be exact
         desc["dtype"] = draw(st.sampled_from(["int8", "uint8", "int16", "bool"]))
@@ -52,7 +52,7 @@ def case_st(draw):
         narrow = False
     op = draw(st.sampled_from(["derivative", "derivative", "derivative", "gradient", "hessian", "laws"]))
     if narrow and op == "laws":
-        op = "gradient"  # (products of narrow integers wrap by numpy's own rules: no law to check there)
+        op = draw(st.sampled_from(["gradient", "hessian", "derivative"]))  # (products of narrow integers wrap by numpy's own rules: no law to check there)
     nv = draw(st.integers(1, 3))
     dvars = []
     for _ in range(nv):
